@@ -5,7 +5,8 @@
    universally quantified. *)
 From Coq Require Import ZArith NArith List Bool.
 From NV Require Import Common.Outcome Lang.Types Lang.Types_proofs Lang.Pattern Lang.PatternSpec Lang.Store
-  Lang.Pattern_proofs Lang.Pattern_proofs2 Lang.Pattern_proofs3 Lang.Store_proofs Lang.Pattern_inverts.
+  Lang.Pattern_proofs Lang.Pattern_proofs2 Lang.Pattern_proofs3 Lang.Store_proofs Lang.Pattern_inverts
+  Lang.Pattern_ops.
 Import ListNotations.
 
 (* binding a value to a pattern never panics, whatever the pattern, value, mode and store:
@@ -121,6 +122,57 @@ Theorem C12_destructure_inverts : forall (inexact : iop -> num -> num -> num),
      exists i x, res = [i; x] /\ append i x = Ok (VList l)).
 Proof. exact destructure_inverts. Qed.
 Print Assumptions C12_destructure_inverts.
+
+(* ---- operator patterns, continued *)
+(* a comparison pattern (`1 < x < 9`, `a <= b`, `0 <= _ != 5`) matches iff the arity fits, there is
+   at least one slot, the value (one slot) or its elements (several slots) fill exactly the
+   non-literal positions, and EVERY link of the chain accepts; what is then matched against the
+   operand patterns is the operand list with the literals kept and the slots filled *)
+Theorem C12_cmp_pattern_iff : forall (inexact : iop -> num -> num -> num) op chained v known ret,
+  destructure inexact (BCmp op chained) v known = Ok ret <->
+  (length chained + 2 = length known)%nat /\ nslots known <> 0%nat /\
+  (exists rv, (if Nat.eqb (nslots known) 1 then rv = [v] else elements v = Some rv) /\
+              lits_agree known ret /\ slot_values known ret = rv) /\
+  links_hold (op :: chained) ret.
+Proof. exact cmp_pattern_iff. Qed.
+Print Assumptions C12_cmp_pattern_iff.
+
+(* the README's `1 < x < 9`: on integers it matches exactly those strictly between *)
+Theorem C12_cmp_between_int : forall (inexact : iop -> num -> num -> num) a z b,
+  destructure inexact (BCmp CLt [CLt]) (vint z) [Some (vint a); None; Some (vint b)] =
+  if ((a <? z) && (z <? b))%Z then Ok [vint a; vint z; vint b] else Err EValue.
+Proof. exact cmp_between_int. Qed.
+Print Assumptions C12_cmp_between_int.
+
+(* `n + k` and `k * n` on EVERY exact number (integer or rational value, integer or rational literal):
+   the bound part is exact, not negative for plus, and combined with the literal it is == the matched number *)
+Theorem C12_plus_inverts_exact : forall (inexact : iop -> num -> num -> num) r a d,
+  is_exact r = true -> is_exact a = true -> plus_inv inexact r a = Ok d ->
+  is_exact d = true /\ num_ge0 d = true /\
+  num_eq (num_add inexact a d) r = true /\ num_eq (num_add inexact d a) r = true.
+Proof. exact plus_inverts_exact. Qed.
+Print Assumptions C12_plus_inverts_exact.
+
+Theorem C12_times_inverts_exact : forall (inexact : iop -> num -> num -> num) r a k,
+  is_exact r = true -> is_exact a = true -> times_inv inexact r a = Ok k ->
+  is_exact k = true /\ num_eq (num_mul inexact a k) r = true /\ num_eq (num_mul inexact k a) r = true.
+Proof. exact times_inverts_exact. Qed.
+Print Assumptions C12_times_inverts_exact.
+
+(* `h .+ t` / `xs +. x` on vectors and bytes invert prepend / append; strings come apart by
+   CHARACTER (the operators themselves raise on strings) *)
+Theorem C12_cons_snoc_other_sequences :
+  (forall l h t, uncons (VVec l) = Ok (Some (h, t)) -> prepend h t = Ok (VVec l)) /\
+  (forall l i x, unsnoc (VVec l) = Ok (Some (i, x)) -> append i x = Ok (VVec l)) /\
+  (forall l h t, bytes_ok l -> uncons (VBytes l) = Ok (Some (h, t)) -> prepend h t = Ok (VBytes l)) /\
+  (forall l i x, bytes_ok l -> unsnoc (VBytes l) = Ok (Some (i, x)) -> append i x = Ok (VBytes l)) /\
+  (forall s h t, uncons (VStr s) = Ok (Some (h, t)) -> exists c r, h = VStr [c] /\ t = VStr r /\ s = c :: r) /\
+  (forall s i x, unsnoc (VStr s) = Ok (Some (i, x)) -> exists c r, i = VStr r /\ x = VStr [c] /\ s = r ++ [c]).
+Proof.
+  repeat split; [exact prepend_inverts_vec|exact append_inverts_vec|exact prepend_inverts_bytes|
+                 exact append_inverts_bytes|exact uncons_string|exact unsnoc_string].
+Qed.
+Print Assumptions C12_cons_snoc_other_sequences.
 
 (* ---- switch / catch *)
 Theorem C12_switch_first_match : forall (sat : N -> val -> outcome bool) (inexact : iop -> num -> num -> num)
